@@ -120,6 +120,11 @@ Deepening round (hooks): coq/theories/C20/Hooks.v models Journal.record with hoo
   dtype/doc_string setters, Function.append/extend/remove/sort, __delitem__ of the IO lists, ...) and misses 6
   wrapped ones (insert_after/before, sort, replace_all_uses_with, Node.prepend/append), so the theorem would
   be an allow-list tripwire rather than content of the property.
+Round 5: `local_objs` creates a small graph that is owned ONLY by a local variable of the frame executing the
+  enclosing `with` block (the frame in which the exception leaving the block is raised); ~15% of the blocks own
+  such objects and are left by an exception that the caller handles (try) while the Journal object is kept.  The
+  weak-reference clause then requires these objects to be dead too: a journal that keeps the exception (hence
+  its traceback, hence the block's frame) alive is reported with a replay (C20-r5m3).
 Modelled, not verified: purity of details_func/repr/getattr inside wrappers (exercised by (i) — and
   this is exactly where the finding below was), weakref/traceback/time, determinism of the originals,
   hooks (user callbacks), threads.
@@ -1022,6 +1027,13 @@ def do_op(W: World, it: dict):
             W.add("shape", s2)
             v.shape = s2
         return v, None
+    if op == "local_objs":
+        # a small graph that only the caller's frame will own (the enclosing block's local variable)
+        a = ir.Value(name="la")
+        n = ir.Node("", "Relu", [a], name="ln")
+        g = ir.Graph([a], list(n.outputs), nodes=[n], name="lg")
+        n.name = "ln2"
+        return None, [a, n, g]
     if op == "temps":
         # a loop creating temporaries that die at once (their addresses are typically reused)
         for _ in range(it.get("k", 3)):
@@ -1168,6 +1180,7 @@ def run_scenario(scn: list, mode: str, x: dict | None = None) -> dict:
         tracer.install()
     look = mode == "journal" and any("look" in it for it in scn)
     active: list[int] = []
+    local_stack: list[list] = []
 
     def make_hook(j, k, spec):
         log = obs["hook_calls"].setdefault(f"{j}:{k}", [])
@@ -1188,6 +1201,11 @@ def run_scenario(scn: list, mode: str, x: dict | None = None) -> dict:
         tgt = None
         try:
             tgt, r = do_op(W, it)
+            if it["op"] == "local_objs":
+                # objects owned only by the frame of the enclosing `with` block (see block()): not in the World
+                if local_stack:
+                    local_stack[-1].extend(r)
+                r = None
             res = ("ok", W.label(r))
             err = None
         except Exception as e:  # noqa: BLE001
@@ -1241,9 +1259,18 @@ def run_scenario(scn: list, mode: str, x: dict | None = None) -> dict:
                     pass
             elif "with" in it:
                 if mode == "plain":
-                    block(it["body"])
+                    local_stack.append([])
+                    try:
+                        block(it["body"])
+                    finally:
+                        local_stack.pop()
                     continue
                 j = it["with"]
+                # `mine` is a LOCAL of this frame, the frame the exception leaving the block is raised in: the
+                # objects in it are owned by the block's frame only, and must die with it even if the journal
+                # is kept and the block was left by an exception (whose traceback refers to this frame)
+                mine: list = []
+                local_stack.append(mine)
                 if j not in journals:
                     journals[j] = Journal()
                     for k, spec in enumerate(it.get("hooks", [])):
@@ -1273,6 +1300,7 @@ def run_scenario(scn: list, mode: str, x: dict | None = None) -> dict:
                         raise
                     came_out = type(ex).__name__
                 finally:
+                    local_stack.pop()
                     if active and active[-1] == j:
                         active.pop()
                     bad = state_diff(before, class_state())
@@ -1573,10 +1601,16 @@ def gen_scenario(rng, size: int = 24) -> list:
                 state["closed"].append(j)
                 if j not in state["hooks"]:
                     state["hooks"][j] = [{"raise_on": None}] * rng.randrange(1, 3) if rng.random() < 0.35 else []
+                u2 = rng.random()
+                if u2 < 0.25:
+                    body.insert(rng.randrange(len(body) + 1), {"op": "local_objs"})
+                    if u2 < 0.15:
+                        body.append({"throw": rng.choice(["ValueError", "KeyError"])})
                 w = {"with": j, "body": body}
                 if state["hooks"][j]:
                     w["hooks"] = state["hooks"][j]
-                items.append(w)
+                # the caller handles the exception and goes on (the journal object is kept)
+                items.append({"try": [w]} if (u2 < 0.15 and rng.random() < 0.7) else w)
             elif u < 0.20:
                 items.append({"try": block(rng.randrange(1, 5), depth, active)})
             elif u < 0.23 and depth >= 1:
